@@ -7,9 +7,9 @@ package types
 // ---- C14: vesting schedule ------------------------------------------------------------------
 
 //@ func (*VestingTokens).VestedSoFar
-//@ requires vesting.NumBlocks > 0
 //@ nopanic
-//@ ensures C14/linear-schedule: result == (vesting.TotalAmount * min(blockHeight(ctx) - vesting.StartBlock, vesting.NumBlocks)) / vesting.NumBlocks
+//@ ensures C14/linear-schedule: vesting.NumBlocks > 0 ==> result == (vesting.TotalAmount * min(blockHeight(ctx) - vesting.StartBlock, vesting.NumBlocks)) / vesting.NumBlocks
+//@ ensures C14/zero-length-schedule: vesting.NumBlocks <= 0 ==> result == vesting.TotalAmount
 //@ ensures C14/bounded: vesting.TotalAmount >= 0 && blockHeight(ctx) >= vesting.StartBlock ==> result >= 0 && result <= vesting.TotalAmount
 //@ ensures C14/complete: blockHeight(ctx) - vesting.StartBlock >= vesting.NumBlocks ==> result == vesting.TotalAmount
 
@@ -37,7 +37,7 @@ package types
 //@ ensures C12/lockup-recorded: lockedFor(c, d, now) == old(lockedFor(c, d, now)) + ite(d == denom && unlockTime != 0 && unlockTime > now, amount, 0)
 //@ ensures C12/claimed-untouched: amt(c.Claimed, d) == old(amt(c.Claimed, d))
 //@ ensures C12/creator-untouched: c.Creator == old(c.Creator)
-//@ modifies *c
+//@ modifies *c.CommittedTokens
 
 //@ func (*Commitments).DeductFromCommitted
 //@ forall d Str
@@ -51,7 +51,7 @@ package types
 //@ ensures C12/lock-respected: err == nil && !isLiquidation ==> committedOf(c, denom) >= old(lockedFor(c, denom, currTime))
 //@ ensures C12/claimed-untouched: amt(c.Claimed, d) == old(amt(c.Claimed, d))
 //@ ensures C12/creator-untouched: c.Creator == old(c.Creator)
-//@ modifies *c
+//@ modifies *c.CommittedTokens
 
 // ---- hooks of this module (interface contracts) --------------------------------------------
 // The implementations live in x/estaking (and, through it, the SDK's staking and distribution
@@ -84,3 +84,14 @@ package types
 //@ iface CommitmentHooks.BeforeEdenBCommitChange
 //@ modifies world
 //@ havoc-only
+
+// ---- C14: vesting entries --------------------------------------------------------------------
+
+//@ define vestedAt(v, h) := ite(v.NumBlocks <= 0, v.TotalAmount, (v.TotalAmount * min(h - v.StartBlock, v.NumBlocks)) / v.NumBlocks)
+// Not yet released, per vesting denom.
+//@ define outstanding(c, d) := sumOver(c.VestingTokens, v, ite(v.Denom == d, v.TotalAmount - v.ClaimedAmount, 0))
+//@ define vestingWF(c) := allOf(c.VestingTokens, v, v.NumBlocks >= 0 && v.TotalAmount >= 0 && v.ClaimedAmount >= 0 && v.ClaimedAmount <= v.TotalAmount)
+
+//@ lemma C14/schedule-monotone (T Int, n Int, a Int, b Int): T >= 0 && n > 0 && a <= b ==> (T * min(a, n)) / n <= (T * min(b, n)) / n
+//@ lemma C14/schedule-never-exceeds-total (T Int, n Int, a Int): T >= 0 && n > 0 && a >= 0 ==> (T * min(a, n)) / n <= T && (T * min(a, n)) / n >= 0
+//@ lemma C14/schedule-completes (T Int, n Int, a Int): n > 0 && a >= n ==> (T * min(a, n)) / n == T
